@@ -14,6 +14,15 @@ type case = {
    (same type & / &&, converting from a pointer-to-const reference & / &&, from an rvalue reference, from an owning array) *)
 let aref_kinds = [ "aref_lv"; "aref_rv"; "aref_conv_lv"; "aref_conv_rv"; "aref_from_rv"; "aref_from_array" ]
 let copy_kinds2 = [ "assign_from_rv"; "assign_rv_rv" ] @ aref_kinds
+(* moved sub-views of an rvalue OWNING array (array.hpp:210-216): std::move(S)(), std::move(S).taked(n), std::move(S).dropped(n)
+   are element_moved views; assigning from them moves exactly the designated elements *)
+let marr_kinds = [ "marr_call"; "marr_taked"; "marr_dropped" ]
+let marr_source (what : string) (args : int list) (s : view) : view option =
+  match what, args with
+  | "marr_call", _ -> Some s
+  | "marr_taked", [ n ] -> run_ops [ OTaked (z n) ] s
+  | "marr_dropped", [ n ] -> run_ops [ ODropped (z n) ] s
+  | _ -> None
 
 let run_ops_exn (ops : op list) (v : view) : view option = run_ops ops v
 
@@ -34,8 +43,11 @@ let run_case (id : string) (c : case) (obs : Buffer.t) : bool =
       let d = shift_base d0 guard and s = shift_base s0 (2 * guard + na) in
       let need_src = List.mem c.what ([ "assign"; "assign_const"; "assign_elems"; "assign_rv"; "assign_elems_named"; "swap"; "move" ] @ copy_kinds2) in
       let dn = i (er_size d) in
+      let is_marr = List.mem c.what marr_kinds in
+      let s_moved = if is_marr then marr_source c.what c.args s else Some s in
       let ok =
-        if need_src then x_sizes_eq d s && List.length d.lay = List.length s.lay
+        if is_marr then (match s_moved with Some s' -> x_sizes_eq d s' && List.length d.lay = List.length s'.lay && List.length d.lay >= 1 | None -> false)
+        else if need_src then x_sizes_eq d s && List.length d.lay = List.length s.lay
         else if c.what = "vals" then List.length c.args = dn && List.length d.lay <= 2
                                      && List.for_all (fun f -> i f = 0) (firsts_of d)   (* rows of values are zero-based *)
         else true in
@@ -49,6 +61,7 @@ let run_case (id : string) (c : case) (obs : Buffer.t) : bool =
           | "assign" | "assign_const" | "assign_elems" | "assign_rv" | "assign_elems_named" -> assign_view (fun x -> x) d s m0
           | w when List.mem w copy_kinds2 -> assign_view (fun x -> x) d s m0
           | "move" -> move_view d s m0
+          | w when List.mem w marr_kinds -> (match s_moved with Some s' -> move_view d s' m0 | None -> m0)
           | "swap" -> swap_views d s m0
           | "fill" -> fill_view (z (List.hd c.args)) d m0
           | "vals" -> assign_vals (zl c.args) d m0
@@ -111,12 +124,25 @@ let gen_case (vc : Views.cfg) : case * string list =
   let dexts, dops, dv, kinds = dst 20 in
   let want = il (l_sizes dv.lay) in
   let dn = i (er_size dv) in
-  let what = weighted [ (4, "assign"); (2, "assign_const"); (2, "assign_rv"); (2, "assign_from_rv"); (1, "assign_rv_rv"); (3, "aref"); (3, "assign_elems"); (2, "assign_elems_named"); (3, "swap"); (3, "move"); (3, "fill"); (3, "vals") ] in
+  let what = weighted [ (4, "assign"); (2, "assign_const"); (2, "assign_rv"); (2, "assign_from_rv"); (1, "assign_rv_rv"); (3, "aref"); (3, "assign_elems"); (2, "assign_elems_named"); (3, "swap"); (3, "move"); (2, "marr"); (3, "fill"); (3, "vals") ] in
   let what = if what = "vals" && (List.length want > 2 || dn > 60) then "assign" else what in
   let what = if what = "aref" then (if nel_of dexts > 0 then pick aref_kinds else "assign") else what in
+  let what = if what = "marr" then (if List.length want >= 1 && List.length want <= 4 && List.for_all (fun n -> n > 0) want then pick marr_kinds else "move")   (* an owning copy of an empty view collapses its extents *) else what in
   let c =
     match what with
     | w when List.mem w aref_kinds -> { dexts; dops = []; sexts = dexts; sops = []; what; args = [] }
+    | "marr_call" -> let sexts, sops = gen_src ~firsts:(il (firsts_of dv)) want in { dexts; dops; sexts; sops; what; args = [] }
+    | "marr_taked" ->
+        (* source longer by k in the leading dimension; taked(w0) keeps the leading w0 items and the index base *)
+        let w0 = List.hd want and k = rnd_range 0 2 in
+        let sexts, sops = gen_src ~firsts:(il (firsts_of dv)) ((w0 + k) :: List.tl want) in
+        { dexts; dops; sexts; sops; what; args = [ w0 ] }
+    | "marr_dropped" ->
+        (* dropped(n) keeps the index range [first + n, last): the source is re-indexed so that it lands on the destination's *)
+        let w0 = List.hd want and n = rnd_range 0 2 in
+        let f = il (firsts_of dv) in
+        let sexts, sops = gen_src ~firsts:((List.hd f - n) :: List.tl f) ((w0 + n) :: List.tl want) in
+        { dexts; dops; sexts; sops; what; args = [ n ] }
     | "fill" -> { dexts; dops; sexts = []; sops = []; what; args = [ rnd_range (-9) 9 ] }
     | "vals" -> { dexts; dops; sexts = []; sops = []; what; args = List.init dn (fun k -> 5000 + k * 7 mod 101) }
     | _ -> let sexts, sops = gen_src ~firsts:(il (firsts_of dv)) want in { dexts; dops; sexts; sops; what; args = [] } in
